@@ -39,6 +39,14 @@ type DrvCtl struct {
 	seen  map[string]int
 	Fired []string
 	Trace []string
+	ctx   string // interface-level call the driver is currently serving ("" unknown)
+}
+
+// SetContext names the interface-level call in progress.
+func (c *DrvCtl) SetContext(point string) {
+	c.mu.Lock()
+	c.ctx = point
+	c.mu.Unlock()
 }
 
 // Drv is the controller of the "sqlite3_verif" driver.
@@ -84,7 +92,11 @@ func (c *DrvCtl) at(op, phase string) error {
 		c.seen[op] = n + 1
 		for _, f := range c.armed {
 			if f.Point == op && f.Nth == n {
-				c.Fired = append(c.Fired, fmt.Sprintf("%s#%d", op, n))
+				tag := fmt.Sprintf("%s#%d", op, n)
+				if c.ctx != "" {
+					tag += "@" + c.ctx
+				}
+				c.Fired = append(c.Fired, tag)
 				ferr = errors.New("verif: injected driver fault at " + op)
 			}
 		}
